@@ -73,15 +73,16 @@ UNIT = Unit(
                C("exist_i", "forall|i: int| 0 <= i < spend_idx ==> rel.contains_key(#[trigger] tx.inputs@[i])", "C02"),
                C("unlocked_i", "!lock_legacy(this.network, this.height) ==> forall|i: int| 0 <= i < spend_idx ==> !new_stakes@.contains_key((#[trigger] tx.inputs@[i]).txhash) && !this.stakes@.contains_key(tx.inputs@[i].txhash)", "C13", "C02"),
                C("approved_i", "forall|i: int| 0 <= i < spend_idx ==> script_approves(spec_covenants_map(*tx), rel[tx.inputs@[i]].coin_data.covhash, *tx, #[trigger] env_of(*tx, rel, i, spec_last_header(*this)))", "C04", "C02"),
+               C("approved_first_i", "forall|i: int| 0 <= i < spend_idx && first_occ(*tx, rel, i) ==> script_approves(spec_covenants_map(*tx), rel[tx.inputs@[i]].coin_data.covhash, *tx, #[trigger] env_of(*tx, rel, i, spec_last_header(*this)))", "C04", "C02", "C19"),
                C("good", "forall|a: Address| good_scripts@.contains(a) ==> exists|i: int| 0 <= i < spend_idx && #[trigger] rel[tx.inputs@[i]].coin_data.covhash == a", "C04", "C02"),
                C("sums", "in_coins@ == in_sums(tx.inputs@, rel, spend_idx as int)", "C01"),
                C("dist", "forall|a: int, b: int| 0 <= a < b < tx.inputs@.len() && rel.contains_key(tx.inputs@[a]) && rel.contains_key(tx.inputs@[b]) ==> rel[tx.inputs@[a]].coin_data.covhash != rel[tx.inputs@[b]].coin_data.covhash", "C04", envelope_of="F-C04-cache"),
            ])]),
     ],
     findings=[
-        Finding("F-C04-cache", A + "::check_tx_validity", ("C04",), [], expect_clause=["approved_i", "approved"], must_hold=["exist", "unlocked", "balanced", "locked_err", "exist_i", "unlocked_i", "sums"],
+        Finding("F-C04-cache", A + "::check_tx_validity", ("C04",), [], expect_clause=["approved_i", "approved"], must_hold=["exist", "unlocked", "balanced", "locked_err", "errkind", "approved_first", "exist_i", "unlocked_i", "sums", "approved_first_i", "good"],
                 what="good_scripts caches approval by covenant hash: a second input locked by the same covenant is never executed with its own environment (id, value, index)"),
-        Finding("F-C04-index", A + "::check_tx_validity", ("C04",), [], expect_clause=["pos"], must_hold=["exist", "unlocked", "balanced", "locked_err", "exist_i", "unlocked_i", "sums"],
+        Finding("F-C04-index", A + "::check_tx_validity", ("C04",), [], expect_clause=["pos"], must_hold=["exist", "unlocked", "balanced", "locked_err", "errkind", "approved_first", "exist_i", "unlocked_i", "sums", "approved_first_i", "good"],
                 what="the covenant environment's spender index is `position as u8`: from the 257th input on the reported position wraps around"),
     ],
 )
